@@ -9,7 +9,7 @@
    closed, not expired, not unsubscribed and below the delivery-failure limit; an entry of
    [st_table] is an accepted subscription that housekeeping / shutdown has not dropped. *)
 From Coq Require Import List ZArith Bool String Lia.
-From SDC Require Import Eventing.Gen_Consts Eventing.Model Eventing.Proofs Eventing.FanOut Eventing.FanOutProofs.
+From SDC Require Import Eventing.Gen_Consts Eventing.Gen_Clauses Eventing.Model Eventing.Proofs Eventing.FanOut Eventing.FanOutProofs.
 Import ListNotations.
 Open Scope Z_scope.
 Open Scope list_scope.
@@ -120,6 +120,86 @@ Theorem C08_remaining_le_grant : forall c ops s,
   In s (st_table st) -> rem_cs s (st_now st) <= Z.max (round2 (s_expire s)) 0 /\ s_expire s <= c_maxd c.
 Proof. exact remaining_le_grant. Qed.
 Print Assumptions C08_remaining_le_grant.
+
+(* --- delivery failures: EVERY kind counts ---------------------------------------------------------------
+   [outcome] lists the kinds of failure an exchange with a subscriber can end in (HTTP error status / SOAP
+   fault, refused connection, connect time-out, socket / asyncio time-out, connection reset, an answer that
+   is not XML); the model treats each of them, for the sync and the async manager, as one failed delivery: *)
+Theorem C08_every_failure_kind_counts : forall c ops a outs s,
+  let st := final c ops in
+  In s (st_table st) -> live c s (st_now st) -> matches (s_filter s) a = true ->
+  outcome_at outs (s_notify s) <> OOk ->
+  In (set_errors s (s_errors s + 1)) (st_table (fst (step c st (Report a outs)))).
+Proof. exact (fun c ops => failure_counts c (final c ops)). Qed.
+Print Assumptions C08_every_failure_kind_counts.
+
+Theorem C08_only_an_answered_exchange_is_a_delivery : forall sync d o,
+  snd (exchange_state sync d o) = true -> o = OOk.
+Proof. exact exchange_state_ok. Qed.
+Print Assumptions C08_only_an_answered_exchange_is_a_delivery.
+
+Theorem C08_over_the_limit_nothing_is_delivered : forall c ops a outs s k b dest,
+  let st := final c ops in
+  In s (st_table st) -> c_maxerr c <= s_errors s -> s_id s = k ->
+  ~ In (Notify k b dest) (msgs_of (step c st (Report a outs))).
+Proof.
+  intros c ops a outs s k b dest st Hs E Hk H.
+  apply (C08_delivery_iff c ops a outs k b dest) in H. destruct H as [_ [s' [Hs' [Hk' [_ [L _]]]]]].
+  pose proof (proj1 (Inv_final c ops)) as ND.
+  assert (s' = s) as ->.
+  { pose proof (tfind_NoDup _ _ ND Hs') as F1. pose proof (tfind_NoDup _ _ ND Hs) as F2.
+    fold st in F1, F2. rewrite Hk' in F1. rewrite Hk in F2. congruence. }
+  exact (over_limit_not_live c s _ E L).
+Qed.
+Print Assumptions C08_over_the_limit_nothing_is_delivered.
+
+(* the except clauses of the send paths as they are in the source today (regenerated on every run by
+   harness/impl/gen_eventing_clauses.py): (function, exception classes, counts a notify error, marks a
+   connection error, re-raises).  A new, removed or changed clause stops this proof; the correspondence
+   streams inject an outcome that reaches every clause of the counting functions. *)
+Theorem C08_send_path_clauses_as_modelled : send_path_clauses = [
+  ("BicepsSubscription.send_notification_report", "HTTPReturnCodeError", true, false, true);
+  ("BicepsSubscription.send_notification_report", "Exception", true, true, true);
+  ("SubscriptionsManagerBase._send_notification_report", "ConnectionRefusedError", false, false, false);
+  ("SubscriptionsManagerBase._send_notification_report", "HTTPReturnCodeError", false, false, false);
+  ("SubscriptionsManagerBase._send_notification_report", "NotConnected", false, false, false);
+  ("SubscriptionsManagerBase._send_notification_report", "TimeoutError", false, false, false);
+  ("SubscriptionsManagerBase._send_notification_report", "DocumentInvalid", false, false, true);
+  ("SubscriptionsManagerBase._send_notification_report", "Exception", false, false, false);
+  ("SubscriptionBase.send_notification_end_message", "Exception", false, false, false);
+  ("BicepsSubscriptionAsync.async_send_notification_report", "HTTPReturnCodeError", true, false, true);
+  ("BicepsSubscriptionAsync.async_send_notification_report", "TimeoutError", true, true, true);
+  ("BicepsSubscriptionAsync.async_send_notification_report", "Exception", true, true, true);
+  ("BICEPSSubscriptionsManagerBaseAsync._async_send_notification_report", "HTTPReturnCodeError", false, false, false);
+  ("BICEPSSubscriptionsManagerBaseAsync._async_send_notification_report",
+   "TimeoutError | ClientConnectionError | ClientConnectorError | ServerConnectionError | TimeoutError", false, false, false);
+  ("BICEPSSubscriptionsManagerBaseAsync._async_send_notification_report", "DocumentInvalid", false, false, true);
+  ("BICEPSSubscriptionsManagerBaseAsync._async_send_notification_report", "Exception", false, false, true);
+  ("BicepsSubscriptionAsync.async_send_notification_end_message", "ClientConnectorError", false, false, false);
+  ("BicepsSubscriptionAsync.async_send_notification_end_message", "Exception", false, false, false)
+]%string.
+Proof. reflexivity. Qed.
+Print Assumptions C08_send_path_clauses_as_modelled.
+
+(* whatever the table looks like: every except clause of the two functions that count delivery failures
+   counts one, and the last clause of each catches every exception; no clause of the sync manager's
+   per-receiver wrapper but the one for an invalid report document ends the fan-out *)
+Definition counting_fn (f : string) : bool :=
+  String.eqb f "BicepsSubscription.send_notification_report" ||
+  String.eqb f "BicepsSubscriptionAsync.async_send_notification_report".
+
+Theorem C08_every_send_path_clause_counts :
+  forallb (fun cl => let '(f, _, counts, _, _) := cl in implb (counting_fn f) counts) send_path_clauses = true /\
+  forallb (fun f => match rev (filter (fun cl => let '(g, _, _, _, _) := cl in String.eqb g f) send_path_clauses) with
+                    | (_, e, _, _, _) :: _ => String.eqb e "Exception"
+                    | [] => false
+                    end)
+          ["BicepsSubscription.send_notification_report"; "BicepsSubscriptionAsync.async_send_notification_report"]%string = true /\
+  forallb (fun cl => let '(f, e, _, _, reraises) := cl in
+                     implb (String.eqb f "SubscriptionsManagerBase._send_notification_report" && reraises)
+                           (String.eqb e "DocumentInvalid")) send_path_clauses = true.
+Proof. vm_compute. repeat split; reflexivity. Qed.
+Print Assumptions C08_every_send_path_clause_counts.
 
 (* --- unknown subscriptions: fault, no message, state unchanged --- *)
 Theorem C08_unknown_fault_noop : forall c ops i,
